@@ -189,6 +189,16 @@ fn inner(case: &C15Case, o: &mut Outcome) -> Result<(), (String, String)> {
                 o.nontrivial_key(fnv1a(format!("{name}\0{epoch}\0{version}\0{release}\0{arch}").as_bytes()));
             }
             let x = rpm::Nevra::new(name.as_str(), epoch.as_str(), version.as_str(), release.as_str(), arch.as_str());
+            // the same value built from owned Strings behaves identically
+            let owned = rpm::Nevra::new(name.clone(), epoch.clone(), version.clone(), release.clone(), arch.clone());
+            if owned != x || owned.to_string() != x.to_string() || owned.as_normalized_form() != x.as_normalized_form() || owned.nvra() != x.nvra() {
+                return Err(("owned-vs-borrowed".into(), format!("Nevra built from owned Strings differs from the one built from &str: {:?} / {:?} / {:?}", owned.to_string(), owned.as_normalized_form(), x.as_normalized_form())));
+            }
+            let eo = rpm::Evr::new(epoch.clone(), version.clone(), release.clone());
+            let eb = rpm::Evr::new(epoch.as_str(), version.as_str(), release.as_str());
+            if eo != eb || eo.to_string() != eb.to_string() || eo.as_normalized_form() != eb.as_normalized_form() {
+                return Err(("owned-vs-borrowed".into(), "Evr built from owned Strings differs from the one built from &str".into()));
+            }
             let text = x.to_string();
             let back = rpm::Nevra::parse(&text);
             if back.values() != x.values() {
